@@ -3,8 +3,8 @@ from __future__ import annotations
 from classify_checks import *
 
 PID = "C01"
-THEOREMS = CLOSURE_THEOREMS
-IMPORTS = CLOSURE_IMPORTS
+THEOREMS = CLOSURE_THEOREMS + ["PauLie.Tie.census_tie"]
+IMPORTS = CLOSURE_IMPORTS + ["PauLieVerif.Proofs.TieCensus"]
 
 def batch_oracle(lines, outs):
     colls = [inputs_of(l) for l in lines]
